@@ -189,9 +189,9 @@ let () =
     (* ------------------------------------------------------------------ property oracles *)
     let show (k, d) = k ^ ":" ^ d in
     (* kind rerun: the same BurndownAnalysis instance went through a prior Initialize + Run.  [exposed]: that prior run used
-       on-disk hibernation and FAILED, so the instance may still hold the name of a temp file (finding: Initialize does not
-       reset it); a failure of such a case carries the narrow tag below and its fine correspondence is skipped (the model
-       starts every run from a fresh item). *)
+       on-disk hibernation and FAILED, so the instance went into Initialize holding the name of a temp file (finding F23,
+       fixed by 964ac9a: Initialize did not reset it); a failure of such a case carries the narrow tag below.  The model starts
+       every run from a fresh item, so the fine correspondence of the second run checks the re-initialisation as well. *)
     let prior = field_opt "prior" c in
     let prior_res = match field_opt "priorres" obs with
       | Some f -> (match args f with o :: n :: _ -> Some ((tag o, atom (List.hd (args o))), int_of_sx n) | _ -> None)
@@ -207,7 +207,7 @@ let () =
          if exposed then count "rerun_after_failed_disk_run"
      | _ -> ());
     if exposed && res <> base && res <> ("panic", "crash") && res <> ("panic", "hang") then
-      propfail id (Printf.sprintf "reuse-after-failed-disk-run: a BurndownAnalysis instance whose previous run failed while branches slept on disk (%s) is initialized and run again (distance %d, threshold %d, disk %d, no fault) and gives %s; a fresh instance without hibernation gives %s (Initialize does not reset hibernatedFileName: Boot reads the stale temp file)"
+      propfail id (Printf.sprintf "reuse-after-failed-disk-run: a BurndownAnalysis instance whose previous run failed while branches slept on disk (%s) is initialized and run again (distance %d, threshold %d, disk %d, no fault) and gives %s; a fresh instance without hibernation gives %s (does Initialize reset hibernatedFileName? Boot must not read the temp file of the previous run)"
                      (match prior_res with Some (r, n) -> Printf.sprintf "outcome %s, %d temp file(s) left" (show r) n | None -> "?")
                      (geti "dist") (geti "thr") (geti "disk") (show res) (show base))
     else
@@ -294,8 +294,7 @@ let () =
 
     (* ------------------------------------------------------------------ fine correspondence *)
     if wrapped && lc && max_file > fine_limit then count "fine_correspondence_skipped_large_file";
-    if wrapped && lc && exposed then count "fine_correspondence_skipped_rerun_after_failed_disk_run";
-    if wrapped && lc && not exposed && max_file <= fine_limit && res <> ("panic", "crash") && res <> ("panic", "hang") then begin
+    if wrapped && lc && max_file <= fine_limit && res <> ("panic", "crash") && res <> ("panic", "hang") then begin
       let calls = List.filter_map (fun e -> match tag e with "hib" | "boot" -> Some (call_of_sx e) | _ -> None) events in
       (* oracle: one entry per call that touches the disk, in call order *)
       let entries = List.filter_map (fun cl ->
